@@ -23,7 +23,8 @@ RULE = ("systematic: generated (n, w) x the COMPLETE finite partition of the off
         "operation of the Python (np.sum, w/s, (u0+i)/n, every running sum) to be exact for that input, otherwise it is sent to regime F. "
         "Regime F: bit-exact Float model (same operation order) on Dirichlet/skewed/unnormalised/all-zero weights of length 0..300, n up to 1000, "
         "with random and adversarial offsets (neighbours of the float breakpoints, 0, nextafter(1,0), 1-1e-12); weights are handed over as "
-        "ndarray, list, tuple or a strided view, and the `random_state` argument is exercised (offset = first uniform after seeding). Every "
+        "ndarray, list, tuple, a strided view — and, in regime Q and in Resampler.run, also float32 / int arrays and lists of Python ints whenever "
+        "these carry exactly the same values (`forms_for`) — and the `random_state` argument is exercised (offset = first uniform after seeding). Every "
         "systematic case is evaluated twice on the model: with s = np.sum(w) passed in and with the modelled pairwise np.sum (systnp). "
         "np.sum: the Float model of numpy's pairwise summation vs np.sum bit-for-bit on vectors of length 0..1500 (all three code paths). "
         "multinomial: numpy legacy choice(p=w) under a seed vs the model fed with the uniforms the generator produces under the same seed "
@@ -91,7 +92,36 @@ def _as_form(wf, form):
         a[::2] = wf
         a[1::2] = 7.5
         return a[::2]
+    if form == "float32":
+        return np.array(wf, dtype=np.float32)
+    if form == "int":
+        return np.array([int(x) for x in wf], dtype=int)
+    if form == "intlist":
+        return [int(x) for x in wf]
     return np.array(wf, dtype=float)
+
+
+def _pow2(fr):
+    return fr > 0 and ((fr.numerator == 1 and fr.denominator & (fr.denominator - 1) == 0)
+                       or (fr.denominator == 1 and fr.numerator & (fr.numerator - 1) == 0))
+
+
+def forms_for(wf):
+    """the input forms that carry exactly the values `wf`: always list / tuple / non-contiguous view; a float32 array when every value
+    and every partial sum is a float32 and the total is a power of two (so that neither the running sum nor a renormalising
+    division rounds differently in single precision); an int array / a list of Python ints when every value is an integer"""
+    out = ["list", "tuple", "strided"]
+    if wf and all(math.isfinite(x) and float(np.float32(x)) == x for x in wf):
+        acc, ex, ok = np.float32(0), Fraction(0), True
+        for x in wf:
+            acc = np.float32(acc + np.float32(x))
+            ex += Fraction(x)
+            ok = ok and Fraction(float(acc)) == ex
+        if ok and _pow2(ex):
+            out.append("float32")
+    if wf and all(math.isfinite(x) and float(x).is_integer() for x in wf):
+        out += ["int", "intlist"]
+    return out
 
 
 def _real_syst(n, wf, u0f, form="array"):
@@ -419,10 +449,13 @@ def _syst_suites(tier, drv):
                 u0 = Fraction(u0f)
                 if not (0 <= u0 < 1):
                     continue
+            form = rng.choice(["array"] * 3 + forms_for(wf)) if wf else "array"
             if exact_audit(n, w, u0):
-                jobs.append((cq, _q_line(n, w, u0), n, wf, u0f, tag, otag, "array"))
+                jobs.append((cq, _q_line(n, w, u0), n, wf, u0f, tag, otag, form))
             else:
-                jobs.append((cf, _f_line(n, wf, u0f), n, wf, u0f, tag, otag + "(inexact->F)", "array"))
+                if form in ("float32", "int", "intlist"):
+                    form = "array"
+                jobs.append((cf, _f_line(n, wf, u0f), n, wf, u0f, tag, otag + "(inexact->F)", form))
     rng = common.rng_for("C06.F")
     fpairs = gen_F_pairs(rng, tier)
     for tag, n, wf in fpairs:
@@ -455,10 +488,10 @@ def _syst_suites(tier, drv):
         if impl in ("IndexError",):
             c.count("IndexError")
         if impl != ans:
-            c.disagree(input=line, impl=impl, model=ans, kind="syst", n=n, w_hex=[f2hex(x) for x in wf], u0_hex=f2hex(u0f))
+            c.disagree(input=line, impl=impl, model=ans, kind="syst", n=n, w_hex=[f2hex(x) for x in wf], u0_hex=f2hex(u0f), form=form)
         elif impl != ans_np:
             c.disagree(input=_np_line(line), impl=impl, model=ans_np, kind="syst", n=n, w_hex=[f2hex(x) for x in wf], u0_hex=f2hex(u0f),
-                       note="model with np.sum inside")
+                       note="model with np.sum inside", form=form)
         c.sample({"op": line if len(line) < 300 else line[:300] + "...", "impl": impl[:120], "model": ans[:120]})
     return [cq, cf]
 
@@ -597,7 +630,8 @@ class _StubClusterer:
         return (np.floor(np.asarray(u)[:, 0] * 1000.0).astype(int)) % 3
 
 
-def _run_resampler(scheme, n, wf, m_rng, u0f=None, seed=None, have_blobs=False, clustering=False, beta=0.5, blobs="float"):
+def _run_resampler(scheme, n, wf, m_rng, u0f=None, seed=None, have_blobs=False, clustering=False, beta=0.5, blobs="float",
+                   wform="array"):
     """drive the real Resampler.run; particles carry their pool index in logl (x = 10*index, blob = 100*index), so the indices used are
     recoverable and the gather can be checked.  beta = 0 is the warm-up branch: nothing is resampled.
     `have_blobs` = the constructor argument (config.blobs_dtype is not None); `blobs` = what the state holds ("none": the property
@@ -610,7 +644,7 @@ def _run_resampler(scheme, n, wf, m_rng, u0f=None, seed=None, have_blobs=False, 
     gate = bool(have_blobs) or blobs != "none"
     if r.have_blobs != gate:
         return "have_blobs-gate-wrong"
-    w = np.array(wf, dtype=float)
+    w = _as_form(wf, wform)          # Resampler.run does not convert its argument: lists / tuples / views reach the routines as they are
     before = {k: st.get_current(k) for k in ("u", "x", "logl", "blobs")}
     hist_blobs = list(st._history["blobs"])
     try:
@@ -705,8 +739,10 @@ def _resampler_suite(tier, drv):
             n = rng.choice([1, 2, 4, 7, 16, 33, m])
             # the blob gate: (declared, what the state holds); declared-but-absent cannot arise (a declared dtype makes _log_like pack blobs)
             declared, held = rng.choice([(False, "none"), (False, "float"), (True, "float"), (False, "object"), (True, "object")])
-            opts = {"have_blobs": declared, "blobs": held, "clustering": rng.random() < 0.4}
+            opts = {"have_blobs": declared, "blobs": held, "clustering": rng.random() < 0.4,
+                    "wform": rng.choice(["array"] * 4 + ["list", "tuple", "strided"])}
             c.count("w:" + wtag)
+            c.count("weights passed as:" + opts["wform"])
             if rng.random() < 0.08:
                 # warm-up branch (beta = 0): no resampling, particles untouched, labels all 0
                 scheme = rng.choice(["syst", "mult"])
@@ -727,14 +763,14 @@ def _resampler_suite(tier, drv):
                     continue      # NaN weights are outside the statement (and the systematic loop has no validation to compare)
                 u0f = rng.choice([0.0, ONE_M, rng.random(), rng.random()])
                 impl = _run_resampler("syst", n, wf, rng, u0f=u0f, **opts)
-                jobs.append((_run_line(False, "syst", n, wf, u0f, []), "syst", n, wf, impl, {"u0_hex": f2hex(u0f)}))
+                jobs.append((_run_line(False, "syst", n, wf, u0f, []), "syst", n, wf, impl, {"u0_hex": f2hex(u0f), "form": opts["wform"]}))
             else:
                 seed = rng.randrange(2 ** 31)
                 us = _uniforms(seed, n)
                 impl = _run_resampler("mult", n, wf, rng, seed=seed, **opts)
                 if impl == "ValueError":
                     c.count("numpy-rejected (compared: the model must reject too)")
-                jobs.append((_run_line(False, "mult", n, wf, 0.0, us), "mult", n, wf, impl, {"seed": seed}))
+                jobs.append((_run_line(False, "mult", n, wf, 0.0, us), "mult", n, wf, impl, {"seed": seed, "form": opts["wform"]}))
     finally:
         np.random.set_state(st)
     res = drv.batch([j[0] for j in jobs])
@@ -1368,6 +1404,28 @@ def oracle_posterior(sd, trim, u0f):
     return oracle_syst(n, wf, u0f, lambda n_, w_, u_: idx)
 
 
+def oracle_forms(n, wf, u0f):
+    """model-free: systematic_resample / Resampler.run must not depend on the container or dtype the weights arrive in, as long as it
+    carries exactly the same values (the statement speaks of weight VECTORS); and every form must satisfy the point-wise laws."""
+    if not wf or n < 1 or any(not (x >= 0.0) or x == float("inf") for x in wf):
+        return None
+    ref = _real_syst(n, wf, u0f, "array")
+    for form in forms_for(wf):
+        r = _real_syst(n, wf, u0f, form)
+        if r != ref:
+            return (f"weights passed as {form} give {_show(r)[:80]} but the float64 array of the same values gives {_show(ref)[:80]}"
+                    f" (n={n}, {len(wf)} weights summing to {float(sum(Fraction(x) for x in wf))!r})")
+        msg = oracle_syst(n, wf, u0f, lambda *_: r)
+        if msg:
+            return f"weights passed as {form}: {msg}"
+    for form in ("list", "tuple"):
+        r = _run_resampler("syst", n, wf, common.rng_for("C06.oracle_forms"), u0f=u0f, wform=form)
+        if r != ref:
+            return (f"Resampler.run with weights passed as {form} gathers with {_show(r)[:80]} but the float64 array of the same values "
+                    f"gives {_show(ref)[:80]} (n={n})")
+    return None
+
+
 def _fail_syst(msg, n, wf, u0f, via="systematic_resample"):
     return {"what": msg, "kind": "syst", "via": via, "n": n, "w": [float(x) for x in wf], "w_hex": [f2hex(x) for x in wf],
             "u0": float(u0f), "u0_hex": f2hex(u0f)}
@@ -1390,9 +1448,12 @@ def search(tier, hints):
             if h.get("kind") in ("syst", "run-syst") and "u0_hex" in h:
                 wf = [hex2f(x) for x in h["w_hex"]]
                 u0f = hex2f(h["u0_hex"])
-                for via, run in (("systematic_resample", _real_syst), ("Resampler.run", _run_syst_via_resampler)):
-                    msg = oracle_syst(h["n"], wf, u0f, run)
-                    if msg and add(_fail_syst(msg, h["n"], wf, u0f, via)):
+                form = h.get("form", "array")
+                for via, run in (("systematic_resample", lambda n_, w_, u_: _real_syst(n_, w_, u_, form)),
+                                 ("Resampler.run", lambda n_, w_, u_: _run_resampler("syst", n_, w_, common.rng_for("C06.oracle_run"),
+                                                                                     u0f=u_, wform=form))):
+                    msg = oracle_syst(h["n"], wf, u0f, run) or oracle_forms(h["n"], wf, u0f)
+                    if msg and add(dict(_fail_syst(msg, h["n"], wf, u0f, via), form=form)):
                         return found
             elif h.get("kind") in ("mult", "run-mult") and "seed" in h:
                 wf = [hex2f(x) for x in h["w_hex"]]
@@ -1438,6 +1499,18 @@ def search(tier, hints):
                 if r:
                     if add(_fail_syst(r[0], n, wf, r[1], via)):
                         return found
+    # 2b. the same values in every container / dtype that carries them exactly (list, tuple, strided view, float32, int): the routine
+    #     must return what it returns for the float64 array, normalised or not, directly and through Resampler.run
+    for tag, n, w in pairs[:250]:
+        if not w or n < 1:
+            continue
+        wf = [float(x) for x in w]
+        for u0f in (0.0, 0.37109375, ONE_M):
+            msg = oracle_forms(n, wf, u0f)
+            if msg:
+                if add(_fail_syst(msg, n, wf, u0f, "input forms")):
+                    return found
+                break
     # 3. float weights, adversarial offsets
     for tag, n, wf in gen_F_pairs(common.rng_for("C06.searchF"), "quick"):
         for otag, u0f in F_offsets(rng, n, wf, 6, 3):
@@ -1512,6 +1585,9 @@ def replay(obj):
         msg = oracle_mult(f["n"], wf, f["seed"])
         return {"fails": msg is not None, "detail": msg}
     u0f = hex2f(f["u0_hex"])
+    if f.get("via") == "input forms" or f.get("form", "array") != "array":
+        msg = oracle_forms(f["n"], wf, u0f)
+        return {"fails": msg is not None, "detail": msg}
     run = _run_syst_via_resampler if f.get("via") == "Resampler.run" else _real_syst
     msg = oracle_syst(f["n"], wf, u0f, run)
     if msg is None and sum((Fraction(x) for x in wf), Fraction(0)) == 1:
